@@ -26,6 +26,7 @@ func concParallel(args []string) error {
 	out := fs.String("out", "", "events (ndjson)")
 	g := fs.Int("goroutines", 16, "goroutines")
 	rounds := fs.Int("rounds", 1, "how many times the parallel phase is repeated")
+	rereg := fs.Bool("rereg", false, "before every round the application registers again, with its pinned type, one key of every discriminator table (a start-up step: no goroutine is running); rounds whose events equal those of the first round are not written")
 	fs.Parse(args)
 	fin, err := os.Open(*in)
 	if err != nil {
@@ -86,8 +87,33 @@ func concParallel(args []string) error {
 	// Phase 1: in parallel, with registry traffic on the side. It runs FIRST, in a fresh
 	// process, so that first-use effects (lazily built tables, caches) happen under contention.
 	parRounds := make([][][]vh.Event, 0, *rounds)
+	sameAsFirst := func(a, b [][]vh.Event) bool {
+		for i := range a {
+			if len(a[i]) != len(b[i]) {
+				return false
+			}
+			for j := range a[i] {
+				x, y := a[i][j], b[i][j]
+				x.ID, y.ID, x.H, y.H = 0, 0, 0, 0
+				jx, _ := json.Marshal(x)
+				jy, _ := json.Marshal(y)
+				if string(jx) != string(jy) {
+					return false
+				}
+			}
+		}
+		return true
+	}
 	for round := 0; round < *rounds; round++ {
 		vh.HistoryBoundary()
+		if *rereg {
+			for _, tn := range vh.TableNames() {
+				tab := vh.S.Tables[tn]
+				e := tab.Entries[round%len(tab.Entries)]
+				ctor := vh.Ctors[e.Type]
+				vh.Registries[tn](e.Key, func() codec.BinaryCodec { return ctor().(codec.BinaryCodec) })
+			}
+		}
 		results := make([][]vh.Event, len(hists))
 		errs := make([]error, *g)
 		var next int64 = -1
@@ -138,6 +164,9 @@ func concParallel(args []string) error {
 			if e != nil {
 				return e
 			}
+		}
+		if *rereg && round >= 2 && sameAsFirst(parRounds[0], results) {
+			continue
 		}
 		parRounds = append(parRounds, results)
 	}
